@@ -106,6 +106,13 @@ def replay(contract, label, model, note=""):
         from . import connections as _cx
 
         return _cx.replay_layouts(model)
+    if "_at[" in contract or "current_at" in contract or "spike_at" in contract:
+        # a delayed read of a synapse class (contract shared with C04): its own oracle drives the real synapse
+        from . import c04 as _c04
+
+        r4 = _c04.replay(contract, label, model, note)
+        if r4.get("reproduced"):
+            return r4
     r = sweep("quick", 0)
     if r["failures"]:
         return {"reproduced": True, "failure": r["failures"][0], "concrete": r["failures"][0]["input"]}
